@@ -34,7 +34,7 @@ PROPS["C01"] = {
              "executed under 4 (quick) / 16 (thorough) tape-chosen release orders of the parked storage calls, a fresh storage order (shard ids) every second execution, every fourth execution as a BatchCheck of the duplicated query. "
              "Oracle: R1 stratified Zanzibar evaluator; limits non-binding by R1's criterion (no reachable cycle through a rewrite edge; max_read_depth=1000 >= 10*|reachable|+10). "
              "A case is non-trivial when the reference derivation has >=1 subject-set hop or rewrite edge and the answer is not decided by a direct tuple on the query node; distinct = distinct hash of (config, tuples, query)."),
-    "probes": ["probe_same_object_name_in_two_namespaces", "probe_duplicates_below_intersection", "unwrapped_engine_checks", "probe_two_hops", "probe_concurrent_parked", "probe_traverse_listing", "strict_cases", "enc_opl", "enc_ast", "enc_none", "ref_allowed", "ref_denied"],
+    "probes": ["probe_same_object_name_in_two_namespaces", "probe_duplicates_below_intersection", "probe_relationships_of_a_removed_namespace", "unwrapped_engine_checks", "probe_two_hops", "probe_concurrent_parked", "probe_traverse_listing", "strict_cases", "enc_opl", "enc_ast", "enc_none", "ref_allowed", "ref_denied"],
     "real": REAL_E, "stub": STUB_E,
     "fault_kinds": {},
     "assumptions": [
